@@ -486,7 +486,7 @@ class FitBase(FileIOMixin, object):
         if not _data_and_cost_compatible:
             raise ValueError("Fit data and cost function are not compatible: %s" % _reason)
         self._set_new_parametric_model()
-        self._param_model._on_error_change_callbacks = [self._on_error_change]
+        self._param_model._on_error_change_callback = self._on_error_change
 
     @property
     def data_error(self):
